@@ -272,7 +272,7 @@ def check(c):
         # every family node is expanded, offset or not (the declared
         # optionality reaches the members through this loop, too)
         c.guard_only('C15.rhs-members', a, [
-            'name in self.family_map', 'm',
+            'name in self.family_map', 'm', 'fam',
             'self.__class__.REC_RHS_NODE.match(right)'], ct,
             what='every family node is expanded;')
     for a in asg:
